@@ -16,6 +16,7 @@ type SynOpts struct {
 	NoTpl     bool
 	NoFuncs   bool
 	NumDot    bool // allow member access directly on numeric literals (`1 .x`)
+	EscStr    bool // string literals may contain backslash escapes (\n \\ \" \')
 	Heavy     bool // favour nesting constructs (functions, blocks) over leaves
 	ASCII     bool // unused: all generated code is ASCII outside strings/comments
 }
@@ -58,9 +59,16 @@ func (g *Syn) num() *Node {
 
 var strPool = []string{"", "a", "hello", "x y", "it works", "A-Z", "100%", "semi;colon", "a+b", "{brace}", "(paren)", "tab?", "q", "//not a comment", "if", "let x = 1"}
 
-func (g *Syn) str() *Node { return Str(strPool[g.R.IntN(len(strPool))]) }
+var escStrPool = []string{`a\nb`, `back\\slash`, `q\"x`, `s\'y`, `end\\`, `\t`, `two \\ \\`}
 
-var tplPool = []string{"", "t", "trail  \n  next", " lead\n\ttab\t\nend ", "multi word", "a+b", "x;y", "(p)", "{b}", "it's", "say \"hi\"", "// no", "line1\nline2", "a\n  b\n"}
+func (g *Syn) str() *Node {
+	if g.O.EscStr && g.R.IntN(2) == 0 {
+		return Str(escStrPool[g.R.IntN(len(escStrPool))])
+	}
+	return Str(strPool[g.R.IntN(len(strPool))])
+}
+
+var tplPool = []string{"", "t", "esc\\` tick  \n  after", "trail  \n  next", " lead\n\ttab\t\nend ", "multi word", "a+b", "x;y", "(p)", "{b}", "it's", "say \"hi\"", "// no", "line1\nline2", "a\n  b\n"}
 
 func (g *Syn) tpl() *Node { return &Node{K: KTpl, Text: tplPool[g.R.IntN(len(tplPool))]} }
 
